@@ -120,6 +120,15 @@ where
             } else {
                 line.push_str(middle_gap);
             }
+            #[cfg(feature = "verif-hooks")]
+            crate::verif::emit(
+                "wrap_columns.cell",
+                &[
+                    crate::verif::n(line_no),
+                    crate::verif::n(column_no),
+                    crate::verif::n(line.len()),
+                ],
+            );
         }
         line.push_str(right_gap);
         lines.push(line);
